@@ -709,10 +709,14 @@ class BrownianInterval(brownian_base.BaseBrownian, _Interval):
             start = interval._start
             end = interval._end
             if end - start > piece_length:
-                midway = (end + start) / 2
-                interval._loc(start, midway)
-                stack.append(interval._right_child)
-                stack.append(interval._left_child)
+                midway = self._round((end + start) / 2)
+                # With a tolerance the rounded midpoint may coincide with an end point, in which case there is nothing
+                # to split (and no children to descend into).
+                if start < midway < end:
+                    interval._loc(start, midway)
+                    if interval._midway is not None:
+                        stack.append(interval._right_child)
+                        stack.append(interval._left_child)
 
     def __repr__(self):
         if self._dt is None:
